@@ -546,7 +546,7 @@ def all_cases(tier, seed):
     ncorpus = len(cases)
     if tier == "thorough":
         cases += exhaustive_cases(4, "01X")
-        cases += g.random_cases(60000)
+        cases += g.random_cases(250000)
     else:
         cases += exhaustive_cases(2, "01X")
         cases += g.random_cases(3000)
@@ -591,6 +591,7 @@ def replay(path, harness, driver):
 
 def main():
     tier = V.tier()
+    rep = V.Report(CID)
     V.build_gatery()
     harness = V.build_harness("C03_node")
     res = V.check_properties(CID)
@@ -600,7 +601,6 @@ def main():
     if "--replay" in sys.argv:
         sys.exit(replay(sys.argv[sys.argv.index("--replay") + 1], harness, driver))
 
-    rep = V.Report(CID)
     rep.add_proof(res)
     cases, ncorpus = all_cases(tier, V.seed())
     impl, rc_d = run_harness(harness, "direct", cases, CID)
